@@ -9,6 +9,7 @@ package c02
 
 import (
 	"fmt"
+	"runtime/debug"
 	"sort"
 	"strconv"
 	"strings"
@@ -17,6 +18,9 @@ import (
 )
 
 func init() {
+	// every ReadStream* call of slip allocates a 64 KiB block buffer; with the default GC target that is one
+	// collection of slip's large live heap per ~60 reads (measured: 22 ms/case vs 2 ms/case with this setting)
+	debug.SetGCPercent(1200)
 	engine.Register(&engine.Prop{
 		ID:    "C02",
 		Level: "exploration",
@@ -41,7 +45,7 @@ func init() {
 
 var required = []string{
 	"cut:in-token", "cut:token-end", "cut:between", "cut:in-string", "cut:in-escape", "cut:in-u-escape", "cut:in-pipe",
-	"cut:after-sharp", "cut:after-dispatch", "cut:in-char", "cut:in-radix", "cut:in-bits", "cut:in-line-comment",
+	"cut:after-sharp", "cut:after-dispatch", "cut:in-char", "cut:in-sharp-number", "cut:in-line-comment",
 	"cut:in-block-comment", "cut:after-quote",
 	"delivery:multi-cut", "delivery:pair-cut", "delivery:stream-agrees", "check:denotation", "check:pos", "check:truncation",
 	"config:base-non-10", "config:float-format-non-default",
@@ -62,14 +66,14 @@ func bound(tier string) string {
 			"(+ EOF-with-data and empty-read variants), every fixed chunk size, every pair of cuts for texts <= 16 bytes, every truncation that ends inside a delimited construct",
 			n, n*n, len(coreTokens))
 	}
-	return fmt.Sprintf("%d tokens: singles x {top,list} x 2 trailers (with every pair of cuts); all %d ordered pairs x {top,list} x separators {space, none, newline, line comment}; "+
+	return fmt.Sprintf("%d tokens: singles x {top,list} x 2 trailers (with every pair of cuts); all %d ordered pairs x {top,list} x separators {space, none, newline, line comment, block comment}; "+
 		"all pairs x top x *read-base* 16 and x float formats {single,long}; per text: whole string, bytes, ReadOne loop, read-from-string per form, cl:read on 2 stream kinds, "+
 		"ReadStream/ReadStream(one)/Push/Each at EVERY single cut, every fixed chunk size, every truncation that ends inside a delimited construct. "+
-		"Cut from the design: vector/quoted/nested contexts, block-comment and tab/CRLF separators, bases 2/8/36, pairs of cuts for two-token texts and triples are thorough only",
+		"Cut from the design: vector/quoted/nested contexts, tab/CRLF separators, bases 2/8/36, pairs of cuts for two-token texts and triples are thorough only",
 		n, n*n)
 }
 
-// spec: ctx|lead|trail|base|ff|mode|tokens|seps   (mode: 1 = single cuts + chunks, 2 = + pairs of cuts)
+// spec: ctx|lead|trail|base|ff|mode|tokens|seps   (mode bits: 1 = also every pair of cuts (texts <= 16 bytes), 2 = also the empty-read variant)
 func mkSpec(ctx, lead, trail int, c cfg, mode int, toks []int, sp []int) string {
 	ts := make([]string, len(toks))
 	for i, t := range toks {
@@ -97,11 +101,13 @@ func enumerate(tier string, emit func(string)) {
 	thorough := tier == engine.Thorough
 	nt := len(tokens)
 	ctxs := []int{0, 1}
-	sepIdx := []int{0, 1, 2, 3}
+	sepIdx := []int{0, 1, 2, 3, 4}
 	trailIdx := []int{0, 1}
 	leadIdx := []int{0}
 	pairTrails := []int{0}
+	single, mode, cmode := 1, 0, 0 // mode bits of singles, pairs, configuration pairs
 	if thorough {
+		single, mode, cmode = 3, 3, 2
 		ctxs = []int{0, 1, 2, 3, 4}
 		sepIdx = []int{0, 1, 2, 3, 4, 5, 6}
 		trailIdx = []int{0, 1, 2}
@@ -113,20 +119,16 @@ func enumerate(tier string, emit func(string)) {
 		for _, lead := range leadIdx {
 			for _, trail := range trailIdx {
 				for i := 0; i < nt; i++ {
-					emit(mkSpec(ctx, lead, trail, defaultCfg, 2, []int{i}, nil))
+					emit(mkSpec(ctx, lead, trail, defaultCfg, single, []int{i}, nil))
 				}
 			}
 		}
 	}
 	// empty compound contexts: "()" "#()" ...
 	for _, ctx := range ctxs[1:] {
-		emit(mkSpec(ctx, 0, 0, defaultCfg, 2, nil, nil))
+		emit(mkSpec(ctx, 0, 0, defaultCfg, single, nil, nil))
 	}
 	// pairs
-	mode := 1
-	if thorough {
-		mode = 2
-	}
 	for _, ctx := range ctxs {
 		for _, s := range sepIdx {
 			for _, trail := range pairTrails {
@@ -156,14 +158,14 @@ func enumerate(tier string, emit func(string)) {
 	for _, c := range cfgs {
 		for _, ctx := range cctx {
 			for i := 0; i < nt; i++ {
-				emit(mkSpec(ctx, 0, 0, c, 2, []int{i}, nil))
+				emit(mkSpec(ctx, 0, 0, c, single, []int{i}, nil))
 			}
 			for i := 0; i < nt; i++ {
 				for j := 0; j < nt; j++ {
 					if !configSensitive(tokens[i]) && !configSensitive(tokens[j]) {
 						continue
 					}
-					emit(mkSpec(ctx, 0, 0, c, 1, []int{i, j}, []int{0}))
+					emit(mkSpec(ctx, 0, 0, c, cmode, []int{i, j}, []int{0}))
 				}
 			}
 		}
@@ -175,7 +177,7 @@ func enumerate(tier string, emit func(string)) {
 				for _, i := range coreTokens {
 					for _, j := range coreTokens {
 						for _, k := range coreTokens {
-							emit(mkSpec(ctx, 0, 0, defaultCfg, 1, []int{i, j, k}, []int{s, s}))
+							emit(mkSpec(ctx, 0, 0, defaultCfg, 2, []int{i, j, k}, []int{s, s}))
 						}
 					}
 				}
@@ -212,7 +214,7 @@ func parseSpec(spec string) (cs caseSpec, err error) {
 	cs.trail = trails[num(p[2], len(trails))]
 	cs.c.base = num(p[3], 37)
 	cs.c.ff = p[4]
-	cs.mode = num(p[5], 3)
+	cs.mode = num(p[5], 4)
 	if p[6] != "" {
 		for _, s := range strings.Split(p[6], ",") {
 			cs.toks = append(cs.toks, tokens[num(s, len(tokens))])
@@ -231,12 +233,14 @@ func parseSpec(spec string) (cs caseSpec, err error) {
 
 // run holds the per-case state of exec.
 type run struct {
-	res   *engine.Result
-	t     text
-	c     cfg
-	seen  map[string]int
-	order []string
-	first map[string]string
+	readOnePos0 int // position ReadOne reports after the first form (-1 = not known)
+	ctx         string
+	res         *engine.Result
+	t           text
+	c           cfg
+	seen        map[string]int
+	order       []string
+	first       map[string]string
 }
 
 func (r *run) fail(sig, detail string) {
@@ -268,7 +272,7 @@ func exec(spec string) (res engine.Result) {
 		res.Fail("harness:annotation-length", fmt.Sprintf("%q vs %q", t.src, t.ann))
 		return
 	}
-	r := &run{res: &res, t: t, c: cs.c, seen: map[string]int{}, first: map[string]string{}}
+	r := &run{readOnePos0: -1, ctx: cs.ctx, res: &res, t: t, c: cs.c, seen: map[string]int{}, first: map[string]string{}}
 	r.all(cs.mode)
 	r.flush()
 	return
@@ -300,8 +304,29 @@ func (r *run) all(mode int) {
 	wholeOK := whole.err == nil
 	badForm := map[int]bool{} // forms whose whole-string read is already wrong (S3: not re-reported per delivery)
 	if wholeOK && len(whole.objs) != len(t.forms) {
-		r.fail(fmt.Sprintf("api=ReadString check=denotation form=%s kind=count", r.formClass(len(whole.objs), len(t.forms))),
-			fmt.Sprintf("read %d forms, the text has %d: got %s", len(whole.objs), len(t.forms), whole.String()))
+		// compare the forms both have, then name the first one that is missing
+		m := len(whole.objs)
+		if len(t.forms) < m {
+			m = len(t.forms)
+		}
+		for i := 0; i < m; i++ {
+			if want[i] == nil {
+				continue
+			}
+			if shape, ww, gg, path := diffPath(want[i], whole.objs[i], nil); shape != "" {
+				r.fail(fmt.Sprintf("api=ReadString check=denotation form=%s kind=value:%s", r.tokenAt(r.ctx, i, path), shape),
+					fmt.Sprintf("form %d reads as %s, denotes %s (first difference: got %s, want %s)", i, whole.objs[i], want[i], gg, ww))
+			}
+		}
+		name := "none:extra"
+		if m < len(t.forms) {
+			name = t.forms[m].class
+			if m == len(t.forms)-1 && t.forms[m].end == len(src) {
+				name += "@eof"
+			}
+		}
+		r.fail(fmt.Sprintf("api=ReadString check=denotation form=%s kind=count", name),
+			fmt.Sprintf("read %d forms, the text has %d: got %s ; denotes %s", len(whole.objs), len(t.forms), whole.String(), r.wantString(want)))
 		wholeOK = false
 	} else if wholeOK {
 		for i, w := range want {
@@ -309,16 +334,15 @@ func (r *run) all(mode int) {
 				continue
 			}
 			res.Hit("check:denotation")
-			if shape, ww, gg := diff(w, whole.objs[i]); shape != "" {
+			if shape, ww, gg, path := diffPath(w, whole.objs[i], nil); shape != "" {
 				badForm[i] = true
-				r.fail(fmt.Sprintf("api=ReadString check=denotation form=%s kind=value:%s", r.formName(i), shape),
+				r.fail(fmt.Sprintf("api=ReadString check=denotation form=%s kind=value:%s", r.tokenAt(r.ctx, i, path), shape),
 					fmt.Sprintf("form %d reads as %s, denotes %s (first difference: got %s, want %s)", i, whole.objs[i], w, gg, ww))
 			}
 		}
 	} else {
 		// the complete, well-formed text is refused
-		i := r.guessBadForm()
-		r.fail(fmt.Sprintf("api=ReadString check=denotation form=%s kind=error:%s", r.formName(i), whole.errClass()),
+		r.fail(fmt.Sprintf("api=ReadString check=denotation form=%s kind=error:%s", r.culprit(), whole.errClass()),
 			fmt.Sprintf("a complete text is refused: %s ; denotes %s", whole.String(), r.wantString(want)))
 	}
 	_ = specified
@@ -336,40 +360,74 @@ func (r *run) all(mode int) {
 		res.Hit("masked:form-at-a-time-by-whole-read-failure")
 	}
 
-	// stream deliveries: every single cut
+	// stream deliveries: the whole text in one piece (k = n), then every single cut
 	singleFails := map[int]bool{}
-	for k := 1; k < n; k++ {
-		ctx := cutCtx(t.ann, k)
-		res.Hit("cut:" + ctx)
-		if ctx != "between" {
-			res.Nontrivial = true
+	var uncut outcome
+	uncutKind := ""
+	for k := n; 1 <= k; k-- {
+		ctx := "none"
+		cuts := []int{}
+		if k < n {
+			ctx = cutCtx(t.ann, k)
+			cuts = []int{k}
+			res.Hit("cut:" + ctx)
+			if ctx != "between" {
+				res.Nontrivial = true
+			}
+			switch ctx {
+			case "in-token", "token-end", "in-sharp-number", "sharp-number-end", "after-dispatch":
+				// a cut inside a token, the one place the carry-over is made for: name the token as well
+				ctx += " token=" + t.tokenClassAt(k)
+			}
 		}
-		cuts := []int{k}
 		st := readStream(src, c, &cutReader{data: []byte(src), cuts: cuts})
 		kind, d := compareSeq(&whole, &st)
-		if kind != "" {
+		if k == n {
+			uncut, uncutKind = st, kind
+		}
+		switch {
+		case kind != "" && k == n:
+			// fails without any cut: what matters is how the text ends
+			last := r.ctx
+			if r.ctx == "top" && 0 < len(t.toks) {
+				last = t.toks[len(t.toks)-1].class
+				if t.forms[len(t.forms)-1].end != n {
+					last += "+space"
+				}
+			}
+			r.fail(fmt.Sprintf("api=ReadStream cut-in=none last=%s kind=%s", last, kind), "delivered in one piece, then (0, EOF): "+d)
+		case kind != "" && uncutKind != "" && sameOutcome(&uncut, &st):
+			// same wrong result as the delivery in one piece: reported there (S3)
+			singleFails[k] = true
+			res.Hit("masked:cut-by-uncut-stream-failure")
+		case kind != "":
 			singleFails[k] = true
 			r.fail(fmt.Sprintf("api=ReadStream cut-in=%s kind=%s", ctx, kind), "delivered as "+showCuts(src, cuts)+": "+d)
-		} else {
+		default:
 			res.Hit("delivery:stream-agrees")
 			if whole.err == nil && st.endPos != n {
 				r.fail(fmt.Sprintf("api=ReadStream cut-in=%s kind=end-position", ctx),
 					fmt.Sprintf("delivered as %s: final position %d, text has %d bytes", showCuts(src, cuts), st.endPos, n))
 			}
 		}
-		// the last piece together with io.EOF, and an empty read at the cut: same result as the plain delivery
+		// the last piece together with io.EOF, and an empty read at the cut: reported when the plain delivery of
+		// the same pieces is right and the variant is not (otherwise it is the plain delivery's failure, S3)
 		for _, variant := range []string{"eof-with-data", "empty-read"} {
 			cr := &cutReader{data: []byte(src), cuts: cuts}
 			if variant == "eof-with-data" {
 				cr.eofWithData = true
-			} else {
+			} else if k < n && mode&2 != 0 {
 				cr.emptyAt = k
+			} else {
+				continue
 			}
 			v := readStream(src, c, cr)
-			if vk, vd := compareSeq(&st, &v); vk != "" {
-				if wk, _ := compareSeq(&whole, &v); wk != "" {
+			if vk, vd := compareSeq(&whole, &v); vk != "" {
+				if kind != "" {
+					res.Hit("masked:variant-by-plain-delivery")
+				} else {
 					r.fail(fmt.Sprintf("api=ReadStream variant=%s cut-in=%s kind=%s", variant, ctx, vk),
-						"delivered as "+showCuts(src, cuts)+": differs from the plain delivery: "+vd)
+						"delivered as "+showCuts(src, cuts)+": "+vd)
 				}
 			}
 		}
@@ -383,7 +441,7 @@ func (r *run) all(mode int) {
 				o = readStreamEach(src, c, &cutReader{data: []byte(src), cuts: cuts})
 			}
 			if k1, _ := compareSeq(&whole, &o); k1 != "" {
-				if k2, d2 := compareSeqStrict(&st, &o); k2 != "" {
+				if k2, d2 := compareSeq(&st, &o); k2 != "" {
 					r.fail(fmt.Sprintf("api=%s cut-in=%s kind=%s", api, ctx, k1),
 						"delivered as "+showCuts(src, cuts)+": differs from ReadStream on the same pieces and from ReadString: "+d2)
 				} else {
@@ -400,6 +458,9 @@ func (r *run) all(mode int) {
 				res.Hit("masked:stream-one-by-stream")
 			case k1 != "":
 				r.fail(fmt.Sprintf("api=ReadStream(one) cut-in=%s kind=%s", ctx, k1), "delivered as "+showCuts(src, cuts)+": "+d1)
+			case o.endPos != t.forms[0].end && k < t.forms[0].end && kind == "" && o.endPos == r.readOnePos0:
+				// same wrong position as ReadOne on the string: reported there (S3)
+				res.Hit("masked:stream-one-pos-by-ReadOne-pos")
 			case o.endPos != t.forms[0].end && k < t.forms[0].end && kind == "":
 				// the position is only comparable when the cut lies inside the first form or before it
 				r.fail(fmt.Sprintf("api=ReadStream(one) cut-in=%s check=pos form=%s delta=%+d", ctx, t.forms[0].class, o.endPos-t.forms[0].end),
@@ -418,7 +479,7 @@ func (r *run) all(mode int) {
 		multis = append(multis, cuts)
 	}
 	nChunks := len(multis)
-	if mode == 2 && n <= 16 {
+	if mode&1 != 0 && n <= 16 {
 		for a := 1; a < n; a++ {
 			for b := a + 1; b < n; b++ {
 				multis = append(multis, []int{a, b})
@@ -474,49 +535,72 @@ func (r *run) all(mode int) {
 	r.truncations()
 }
 
-// compareSeqStrict: like compareSeq but two errors only agree when the objects before them agree too.
-func compareSeqStrict(a, b *outcome) (string, string) {
-	if a.err != nil && b.err != nil {
-		return compareObjs(a.objs, b.objs)
+// sameOutcome: same objects, or both an error of the same class.
+func sameOutcome(a, b *outcome) bool {
+	if a.err != nil || b.err != nil {
+		return a.err != nil && b.err != nil && a.errClass() == b.errClass()
 	}
-	return compareSeq(a, b)
+	k, _ := compareObjs(a.objs, b.objs)
+	return k == ""
 }
 
-func (r *run) formName(i int) string {
-	if i < 0 || len(r.t.forms) <= i {
-		return "none"
+// tokenAt names the token a difference belongs to: form index i of the text,
+// path of child indexes inside that form.
+func (r *run) tokenAt(ctx string, i int, path []int) string {
+	idx := -1
+	switch ctx {
+	case "top":
+		idx = i
+	case "list", "vector":
+		if 1 <= len(path) {
+			idx = path[0]
+		}
+	case "quoted-list":
+		if 2 <= len(path) && path[0] == 0 {
+			idx = path[1]
+		}
+	case "nested":
+		if 2 <= len(path) && path[0] == 1 {
+			idx = path[1]
+		}
 	}
-	name := r.t.forms[i].class
-	if len(r.t.toks) == 1 && name != r.t.toks[0].class {
-		name += "<" + r.t.toks[0].class + ">"
+	if idx < 0 || len(r.t.toks) == 0 {
+		return ctx
 	}
-	if len(r.t.toks) == 2 && name != r.t.toks[0].class {
-		// compound context: name the pair only by what is inside when both are the same class
-		name += "<..>"
+	if len(r.t.toks) <= idx {
+		idx = len(r.t.toks) - 1
 	}
-	if i == len(r.t.forms)-1 && r.t.forms[i].end == len(r.t.src) {
-		name += "@eof"
-	}
+	name := r.t.toks[idx].class
 	return name
 }
 
-func (r *run) formClass(got, want int) string {
-	if got < want {
-		return r.formName(got) + ":missing"
-	}
-	return "none:extra"
-}
-
-// guessBadForm: when the whole text is refused, name the first form that is
-// refused when read alone (falls back to the last form).
-func (r *run) guessBadForm() int {
-	for i, f := range r.t.forms {
-		o := readString(r.t.src[f.start:f.end], r.c)
+// culprit: when the whole text is refused, name the first token that is
+// refused or misread when read alone followed by a space; failing that, the
+// last token when it is misread at the very end of a text.
+func (r *run) culprit() string {
+	bad := func(k tok, text string) bool {
+		o := readString(text, r.c)
 		if o.err != nil {
-			return i
+			return true
+		}
+		if d := k.den(r.c); d != nil {
+			if len(o.objs) != 1 {
+				return true
+			}
+			s, _, _ := diff(d, o.objs[0])
+			return s != ""
+		}
+		return false
+	}
+	for _, k := range r.t.toks {
+		if bad(k, k.text+" ") {
+			return k.class
 		}
 	}
-	return len(r.t.forms) - 1
+	if n := len(r.t.toks); 0 < n && bad(r.t.toks[n-1], r.t.toks[n-1].text) {
+		return r.t.toks[n-1].class + "@eof"
+	}
+	return "combination"
 }
 
 func (r *run) wantString(want []*cv) string {
@@ -554,6 +638,9 @@ func (r *run) formAtATime(whole []*cv, badForm map[int]bool) {
 					fmt.Sprintf("ReadOne at offset %d returned %s, ReadString gives %s", off, obj, whole[i]))
 			} else {
 				r.res.Hit("check:pos")
+				if i == 0 {
+					r.readOnePos0 = pos
+				}
 				if pos != f.end {
 					r.fail(fmt.Sprintf("api=ReadOne check=pos form=%s delta=%+d", f.class, pos-f.end),
 						fmt.Sprintf("ReadOne at offset %d returned %s and position %d; the form ends at %d", off, obj, pos, f.end))
@@ -633,15 +720,7 @@ func (r *run) truncations() {
 	for k := 1; k < len(t.src); k++ {
 		ctx := cutCtx(t.ann, k)
 		depth := depthAt(t.ann, k)
-		demand := 0 < depth
-		switch ctx {
-		case "in-string", "in-escape", "in-u-escape", "in-pipe", "after-quote", "after-sharp":
-			demand = true
-		case "after-dispatch":
-			if t.ann[k] != 'b' { // "#*" alone is the empty bit vector
-				demand = true
-			}
-		}
+		demand := truncationDemanded(t.ann, k)
 		if !demand {
 			continue
 		}
